@@ -26,6 +26,9 @@ pub struct Env<'a> {
     pub fail: &'a Mutex<Option<vcore::Fail>>,
 }
 
+/// reserved check id: the ambient context of a fresh poll thread right after a poll that ran there
+pub const POLL_THREAD_END: usize = usize::MAX;
+
 fn check(env: &Env, id: usize) {
     let c = SpanCtxt::current(env.rt.ctxt());
     env.obs.lock().unwrap().push(Obs {
@@ -149,17 +152,27 @@ fn span_handoff_call(env: &Env, node: &PNode) {
     let r = std::thread::scope(|s| {
         s.spawn(move || {
             vcore::catch(move || {
+                // entering the carried frame is the first thing this thread does with the context
                 frame.call(move || {
                     guard.start();
                     check(env, node.pre);
                     run_sync(env, &node.items);
                     guard.complete();
-                })
+                });
+                far_side_goes_on(env, node);
             })
         })
         .join()
     });
     park(env, r);
+}
+
+/// The far thread is a worker: after the span's frame has been left it goes on with unrelated work.
+fn far_side_goes_on(env: &Env, node: &PNode) {
+    if let Some(id) = node.far_end {
+        check(env, id);
+    }
+    run_sync(env, &node.after);
 }
 
 fn span_handoff_in_fn(env: &Env, node: &PNode) {
@@ -170,7 +183,15 @@ fn span_handoff_in_fn(env: &Env, node: &PNode) {
         run_sync(env, &node.items);
         drop(guard);
     });
-    let r = std::thread::scope(|s| s.spawn(move || vcore::catch(on_thread)).join());
+    let r = std::thread::scope(|s| {
+        s.spawn(move || {
+            vcore::catch(move || {
+                on_thread();
+                far_side_goes_on(env, node);
+            })
+        })
+        .join()
+    });
     park(env, r);
 }
 
@@ -179,10 +200,13 @@ fn span_handoff_enter_back(env: &Env, node: &PNode) {
     let r = std::thread::scope(|s| {
         s.spawn(move || {
             let r = vcore::catch(|| {
-                let _entered = frame.enter();
-                guard.start();
-                check(env, node.pre);
-                run_sync(env, &node.items);
+                {
+                    let _entered = frame.enter();
+                    guard.start();
+                    check(env, node.pre);
+                    run_sync(env, &node.items);
+                }
+                far_side_goes_on(env, node);
             });
             (r, guard, frame)
         })
@@ -208,6 +232,7 @@ async fn span_handoff_future(env: &Env<'_>, node: &PNode) {
             run_async(env, &node.items).await;
             guard.complete();
         }),
+        &|| check(env, POLL_THREAD_END),
         env.fail,
     )
     .await
@@ -258,12 +283,12 @@ pub fn run_sync(env: &Env, items: &[PItem]) {
             PItem::Event { id } => event(env, *id),
             PItem::Check { id } => check(env, *id),
             PItem::Yield => {}
-            PItem::Hop { carry, fut, items, pre, post } => {
-                hop(env, *carry, *fut, items, *pre);
+            PItem::Hop { carry, fut, items, pre, end, after, post } => {
+                hop(env, *carry, *fut, items, *pre, *end, after);
                 check(env, *post);
             }
             PItem::Join { carry, migrate, tasks, schedule, post } => {
-                block_on(join(spawn_tasks(env, *carry, tasks), schedule, *migrate, env.fail));
+                block_on(join(spawn_tasks(env, *carry, tasks), schedule, *migrate, &|| check(env, POLL_THREAD_END), env.fail));
                 check(env, *post);
             }
         }
@@ -281,12 +306,13 @@ pub fn run_async<'a>(env: &'a Env<'a>, items: &'a [PItem]) -> BoxFut<'a> {
                 PItem::Event { id } => event(env, *id),
                 PItem::Check { id } => check(env, *id),
                 PItem::Yield => yield_now().await,
-                PItem::Hop { carry, fut, items, pre, post } => {
-                    hop(env, *carry, *fut, items, *pre);
+                PItem::Hop { carry, fut, items, pre, end, after, post } => {
+                    hop(env, *carry, *fut, items, *pre, *end, after);
                     check(env, *post);
                 }
                 PItem::Join { carry, migrate, tasks, schedule, post } => {
-                    join(spawn_tasks(env, *carry, tasks), schedule, *migrate, env.fail).await;
+                    let hook = || check(env, POLL_THREAD_END);
+                    join(spawn_tasks(env, *carry, tasks), schedule, *migrate, &hook, env.fail).await;
                     check(env, *post);
                 }
             }
@@ -310,7 +336,7 @@ fn spawn_tasks<'a>(env: &'a Env<'a>, carry: bool, tasks: &'a [Vec<PItem>]) -> Ve
 }
 
 /// Continue on a fresh thread (joined before going on, so the case stays deterministic).
-fn hop(env: &Env, carry: bool, fut: bool, items: &[PItem], pre: usize) {
+fn hop(env: &Env, carry: bool, fut: bool, items: &[PItem], pre: usize, end: usize, after: &[PItem]) {
     let frame = if carry { Some(Frame::current(env.rt.ctxt())) } else { None };
     let r = std::thread::scope(|s| {
         s.spawn(move || {
@@ -331,6 +357,9 @@ fn hop(env: &Env, carry: bool, fut: bool, items: &[PItem], pre: usize) {
                         run_async(env, items).await
                     }),
                 }
+                // the thread goes on as a worker: nothing of the carried frame may still be ambient
+                check(env, end);
+                run_sync(env, after);
             })
         })
         .join()
